@@ -503,6 +503,8 @@ var fixedH2GW = [][]gwEv{
 	{{kind: 'O', v: 200000}, {kind: 'G'}, {kind: 'C', v: 200000}, {kind: 'I', v: 100000}, {kind: 'I', v: 300000}},
 	{{kind: 'O', v: 200000}, {kind: 'Q'}, {kind: 'G'}, {kind: 'Y', k: 0}, {kind: 'C', v: 200000}, {kind: 'S', k: 0, v: 200000}, {kind: 'O', v: 5}},
 	{{kind: 'O', v: 200000}, {kind: 'S', k: 0, v: 200000}, {kind: 'C', v: 200000}},
+	// WINDOW_UPDATE for a stream refused after the GOAWAY (still idle for MOSN): dropped, the stream in flight goes on
+	{{kind: 'O', v: 200000}, {kind: 'G'}, {kind: 'O', v: 10}, {kind: 'S', k: 1, v: 1000}, {kind: 'C', v: 200000}, {kind: 'S', k: 0, v: 200000}},
 }
 
 func runH2GoAwayWin(c *hx.Ctx) {
